@@ -284,73 +284,9 @@ def oracle(case, impl):
 
 
 # ----------------------------------------------------------------------------- findings
-
-def _surviving(lay, impl):
-    sr = split_result(impl)
-    dropped = parse_prefix(sr[0])["dropped"] if sr else set()
-    return [(si, mi, m) for si, s in enumerate(lay["svcs"]) for mi, m in enumerate(s["mounts"]) if (si, mi) not in dropped]
-
-
-def _trash_lost_agree(impl, model):
-    """the implementation's trash list and lost flag are among the outcomes the model allows"""
-    si, sm = split_result(impl), split_result(model)
-    if si is None or sm is None or len(si[1]) != 1 or si[0] != sm[0]:
-        return False
-    try:
-        key = lambda o: (o["lost"], tuple(sorted((i, json.dumps(e, sort_keys=True)) for i, e in o["T"])))
-        return key(parse_outcome(si[1][0])) in {key(parse_outcome(o)) for o in sm[1]}
-    except Exception:
-        return False
-
-
-def finding_of(case, impl, why, model=None):
-    """A failure is attributed to a known finding only if (a) it has that finding's shape and (b) the
-    implementation's trash list and lost flag on this case are among those the model of the unchanged
-    code allows (the model is
-    proved to have exactly these defects: C05_trash_safe_fails_F1/_F2, C05_lost_full_fails); when
-    the model was not run on the case (failing-input search) only the shape is used.
-    The shapes are evaluated on the mounts that survive cleanupMounts (read from the implementation's
-    own `mounts=` field), because that is the layout balanceBlock and C05_trash_safe_partial see.
-    F1: under-replication/trash-safety failure and some device is mounted on >= 2 servers.
-    F2: trash-safety failure, no device mounted twice, some server has >= 2 mounts, and a replica
-        sits on a mount outside the failing class (the mount that absorbs the protection).
-    F12: lost not reported and no mount is writable.
-    A failure with no shared device and one mount per server matches nothing; nor does any
-    failure of the ttl/readonly/pull/json clauses."""
-    if not why:
-        return None
-    lay = parse_case(case)
-    if lay is None:
-        return None
-    if model is not None and not _trash_lost_agree(impl, model):
-        return None
-    tag = why.split(":", 1)[0]
-    sv = _surviving(lay, impl)
-    if tag in ("unsafe", "underrep"):
-        have = {(si, mi) for si, mi, _ in lay["reps"]}
-        devsrv = {}
-        for si, mi, m in sv:
-            if m["dev"]:
-                devsrv.setdefault(m["dev"], set()).add(si)
-        if any(len(s) >= 2 for s in devsrv.values()):
-            return "F1"
-        alldevs = [m["dev"] for _, _, m in sv if m["dev"]]
-        if len(alldevs) != len(set(alldevs)):
-            return None
-        if tag == "unsafe":
-            per = {}
-            for si, mi, m in sv:
-                per[si] = per.get(si, 0) + 1
-            mcls = re.search(r"leaves class (\S+) with", why)
-            cls = mcls.group(1) if mcls else None
-            outside = any((si, mi) in have and cls not in m["classes"] for si, mi, m in sv)
-            if any(n >= 2 for n in per.values()) and outside:
-                return "F2"
-        return None
-    if tag == "lost" and "not reported" in why:
-        if not any(not (m["ro"] or lay["svcs"][si]["ro"]) for si, mi, m in sv):
-            return "F12"
-    return None
+# F1, F2 and F12 were repaired by fix: commits in /repo (harness/props/C05.findings.json, status
+# "fixed"); their witnesses are in corpus/C05 and must pass. There is no finding_of: any failure of
+# any clause on any layout is a VIOLATION.
 
 
 # ----------------------------------------------------------------------------- generator
